@@ -8,7 +8,7 @@ the DTFT of the overall impulse response `hbfCascadeFir d` (`Lemmas/HbfSpecDefs.
 REAL product of the stage amplitudes `hbfAmp`:
 
 * `levQ l z` — evaluation of a coefficient list at a complex point; `levQ_laddQ`, `levQ_lconv`, `levQ_lupsample`,
-  `levQ_eq_sum`: it is additive, multiplicative for the polynomial product `lconv`, and `lupsample k` substitutes
+  `levQ_eq_sum`: it is additive, multiplicative for the polynomial product `hbfSpecLconv`, and `lupsample k` substitutes
   `z ↦ z^k`;
 * `levQ_hbfFir_exp` — one stage on the unit circle: `H(e^{-iφ}) = e^{-i(2M-1)φ}·hbfAmp taps φ` (from the
   three-part splitting `firAt_eq` of `Lemmas/HbfConv.lean`);
@@ -40,11 +40,11 @@ theorem levQ_map_mul (a : ℚ) (b : List ℚ) (z : ℂ) : levQ (b.map (a * ·)) 
   | nil => simp
   | cons x b ih => simp only [List.map_cons, levQ_cons, ih]; push_cast; ring
 
-theorem levQ_lconv (a b : List ℚ) (z : ℂ) : levQ (lconv a b) z = levQ a z * levQ b z := by
+theorem levQ_lconv (a b : List ℚ) (z : ℂ) : levQ (hbfSpecLconv a b) z = levQ a z * levQ b z := by
   induction a with
-  | nil => simp [lconv]
+  | nil => simp [hbfSpecLconv]
   | cons x a ih =>
-    simp only [lconv, levQ_laddQ, levQ_map_mul, levQ_cons, ih]
+    simp only [hbfSpecLconv, levQ_laddQ, levQ_map_mul, levQ_cons, ih]
     push_cast; ring
 
 theorem levQ_replicate_zero_append (k : ℕ) (l : List ℚ) (z : ℂ) :
@@ -77,7 +77,7 @@ theorem levQ_eq_sum (l : List ℚ) (z : ℂ) : levQ l z = ∑ n ∈ range l.leng
     ring
 
 theorem levQ_foldl_lconv {ι : Type} (g : ι → List ℚ) (L : List ι) (acc : List ℚ) (z : ℂ) :
-    levQ (L.foldl (fun acc j => lconv acc (g j)) acc) z = levQ acc z * (L.map (fun j => levQ (g j) z)).prod := by
+    levQ (L.foldl (fun acc j => hbfSpecLconv acc (g j)) acc) z = levQ acc z * (L.map (fun j => levQ (g j) z)).prod := by
   induction L generalizing acc with
   | nil => simp
   | cons j L ih => simp only [List.foldl_cons, ih, levQ_lconv, List.map_cons, List.prod_cons]; ring
